@@ -21,7 +21,7 @@ def sh(cmd, cwd=None, env=None, timeout=3600):
 
 
 def apply_patch(repo, patch):
-    for opt in ("", "-C1", "--3way"):
+    for opt in ("", "-C1"):
         rc, out = sh("git -C %s apply %s %s" % (repo, opt, patch))
         if rc == 0:
             return True, opt or "plain"
@@ -30,7 +30,8 @@ def apply_patch(repo, patch):
 
 
 def main():
-    only = sys.argv[1:]
+    only = [a for a in sys.argv[1:] if not a.startswith("--")]
+    validate_only = "--validate-only" in sys.argv   # redo steps 1-2 only, keep the recorded check result
     inc = os.path.join(V, "seeded", "_incoming")
     sh("git -C /repo worktree remove --force %s" % WT)
     rc, out = sh("git -C /repo worktree add -f %s HEAD" % WT)
@@ -55,7 +56,7 @@ def main():
                 meta = {}
             rec["summary"] = meta.get("summary", "")
             rec["needs_to_manifest"] = meta.get("needs_to_manifest", "")
-            sh("git -C %s checkout -- ." % WT)
+            sh("git -C %s reset --hard -q HEAD" % WT)
             rc0, out0 = sh("%s %s" % (PY, demo), cwd=WT, env=env, timeout=1800)
             rec["demo_clean_exit"] = rc0
             rec["ran"].append("demo on clean worktree (HEAD incl. fix: commits): exit %d" % rc0)
@@ -75,10 +76,18 @@ def main():
             rec["demo_patched_exit"] = rc1
             rec["demo_patched_output"] = out1.strip()[-400:]
             rec["ran"].append("demo on patched worktree: exit %d" % rc1)
-            sh("git -C %s checkout -- ." % WT)
+            sh("git -C %s reset --hard -q HEAD" % WT)
             valid = (rc0 == 0 and rc1 != 0 and rec["tests_passed"] >= 33 and not rec["tests_failed"])
             rec["valid_seed"] = valid
             # ---- run the property's check against /repo with the patch applied
+            out_dir = os.path.join(V, "seeded", sid)
+            if validate_only and os.path.exists(os.path.join(out_dir, "meta.json")):
+                old = json.load(open(os.path.join(out_dir, "meta.json")))
+                old["confirmed_by_me"] = dict(demo_clean_exit=rc0, demo_patched_exit=rc1, tests_passed_with_patch=rec["tests_passed"], valid_seed=valid)
+                old["ran"] = rec["ran"] + [r for r in old.get("ran", []) if "vcheck" in r]
+                json.dump(old, open(os.path.join(out_dir, "meta.json"), "w"), indent=1)
+                print(sid, "revalidated", "valid" if valid else "INVALID-SEED", rc0, rc1, rec["tests_passed"], flush=True)
+                continue
             ok2, how2 = apply_patch("/repo", patch)
             if ok2:
                 t0 = time.time()
@@ -88,7 +97,12 @@ def main():
                 viol = [l for l in outc.splitlines() if l.startswith("VIOLATION")]
                 det = [l.strip() for l in outc.splitlines() if l.strip().startswith("obligation ") or l.strip().startswith("bounded case ")]
                 rec["violation_lines"] = viol[:6]
-                rec["caught_by"] = det[:6]
+                obl = [l for l in det if l.startswith("obligation ")]
+                bnd = [l for l in det if l.startswith("bounded case ")]
+                rec["caught_by"] = obl[:4] + bnd[:3]
+                rec["n_obligations_refuted"] = len(obl)
+                rec["n_bounded_cases"] = len(bnd)
+                rec["known_lines"] = len([l for l in outc.splitlines() if l.startswith("KNOWN-FINDING")])
                 rec["other_lines"] = [l for l in outc.splitlines() if l.startswith(("TOOL-LIMIT", "UNDECIDED", "CHECKER-ERROR", "SOLVER-ERROR"))][:4]
                 rec["ran"].append("git -C /repo apply; ./vcheck %s --tier quick: exit %d; git -C /repo checkout -- ." % (prop, rcc))
             sh("git -C /repo checkout -- .")
@@ -100,12 +114,13 @@ def main():
             shutil.copy(demo, os.path.join(out_dir, "demo.py"))
             json.dump(dict(property=prop, what=rec["summary"], needs_to_manifest=rec["needs_to_manifest"], confirmed_by_me=dict(
                 demo_clean_exit=rc0, demo_patched_exit=rc1, tests_passed_with_patch=rec["tests_passed"], valid_seed=valid),
-                check=dict(exit=rec.get("check_exit"), caught_by=rec.get("caught_by"), violation_lines=rec.get("violation_lines"), other=rec.get("other_lines")),
+                check=dict(exit=rec.get("check_exit"), obligations_refuted=rec.get("n_obligations_refuted"), bounded_cases_failed=rec.get("n_bounded_cases"), caught_by=rec.get("caught_by"), violation_lines=rec.get("violation_lines"), other=rec.get("other_lines")),
                 ran=rec["ran"], origin="written by an independent sub-agent that saw only the property text and its own worktree"),
                 open(os.path.join(out_dir, "meta.json"), "w"), indent=1)
             print(sid, rec["status"], "valid" if valid else "INVALID-SEED", rec.get("caught_by", [])[:1], flush=True)
     sh("git -C /repo worktree remove --force %s" % WT)
-    json.dump(results, open(os.path.join(V, "seeded", "results.json"), "w"), indent=1)
+    if not validate_only and not only:
+        json.dump(results, open(os.path.join(V, "seeded", "results.json"), "w"), indent=1)
 
 
 if __name__ == "__main__":
